@@ -6,6 +6,7 @@
      * every bit length 0..MaxBits (all residues modulo 8, 32, 64 and every tail shape: the keystream word
        count ceil(n/32), the partial last octet, the EIA1 block count ceil(n/64), the CMAC complete /
        incomplete last block n mod 128) plus lengths around powers of two,
+     * a few long inputs (LongOctets) and same-parameter call sequences with rising and falling lengths (Sequences),
      * key and COUNT patterns: all-zero, all-one, a single walking bit through all 128 key bits and all
        32 COUNT bits (key loading order, word order, byte order), and seeded random material (empty tuple:
        the driver draws it from its seeded generator).
@@ -19,7 +20,9 @@ CONSTANTS Kind,        \* "cipher" or "mac"
           BigBits,     \* extra bit lengths (set)
           BigBytes,    \* extra byte lengths for the wrappers (set)
           GridBits,    \* bit lengths used with the complete BEARER x DIRECTION grid
-          Reps         \* number of random-material repetitions of the dense length slice
+          Reps,        \* number of random-material repetitions of the dense length slice
+          LongOctets,  \* a few long inputs (octets) for every algorithm and both entry points
+          SeqGroups    \* number of same-parameter call sequences per algorithm and entry point
 VARIABLE c
 Zero(n) == [i \in 1..n |-> 0]
 Ones(n) == [i \in 1..n |-> 255]
@@ -27,8 +30,11 @@ Walk(n, b) == [i \in 1..n |-> IF i = (b \div 8) + 1 THEN 2^(7 - (b % 8)) ELSE 0]
 Rnd == <<>>
 FnOp == IF Kind = "cipher" THEN "NEA" ELSE "NIA"
 WrOp == IF Kind = "cipher" THEN "NASEncrypt" ELSE "NASMacCalculate"
-Case(op, alg, key, cnt, bearer, dir, nbits, dpat) ==
-  [op |-> op, alg |-> alg, key |-> key, cnt |-> cnt, bearer |-> bearer, dir |-> dir, nbits |-> nbits, dpat |-> dpat]
+\* grp / seq: cases of one group (grp > 0) are replayed back to back in the order seq, and random key / COUNT material
+\* (empty tuple) is drawn once per group: a call SEQUENCE under identical parameters.  grp = 0: an independent case.
+GCase(op, alg, key, cnt, bearer, dir, nbits, dpat, grp, seq) ==
+  [op |-> op, alg |-> alg, key |-> key, cnt |-> cnt, bearer |-> bearer, dir |-> dir, nbits |-> nbits, dpat |-> dpat, grp |-> grp, seq |-> seq]
+Case(op, alg, key, cnt, bearer, dir, nbits, dpat) == GCase(op, alg, key, cnt, bearer, dir, nbits, dpat, 0, 0)
 KeyPat(p) == CASE p = 0 -> Zero(16) [] p = 1 -> Ones(16) [] OTHER -> Rnd
 CntPat(p) == CASE p = 0 -> Zero(4) [] p = 1 -> Ones(4) [] OTHER -> Rnd
 \* the wrappers take whole octets; the AES based functions are octet oriented as well
@@ -53,8 +59,27 @@ Raw(op) ==
   {Case(op, 0, KeyPat(p), Zero(4), 0, 0, 32 * n, q) : p \in 0..2, q \in 0..2, n \in (0..8) \cup {25, 100}}
   \cup {Case(op, 0, Walk(16, b), Zero(4), 0, 0, 96, 0) : b \in 0..127}          \* walking key bit, zero iv
   \cup {Case(op, 0, Zero(16), Zero(4), 0, 0, 96, 3 + b) : b \in 0..127}         \* walking iv bit (dpat 3+b), zero key
-Cases == UNION {Grid(a) \cup Dense(a) \cup Walking(a) : a \in 1..3}
-         \cup (IF Kind = "cipher" THEN Raw("GetKeyStream") \cup Raw("Zuc") ELSE {})
+\* long inputs: beyond 256 AES blocks / 1024 keystream words / 512 EIA1 blocks (counter carries, long streams)
+Long(alg) ==
+  {Case(op, alg, KeyPat(p), CntPat(3 - p), (n + alg) % 32, n % 2, 8 * n, 2) : n \in LongOctets, p \in 1..2, op \in {FnOp, WrOp}}
+LongRaw(op) == {Case(op, 0, KeyPat(p), Zero(4), 0, 0, 32 * ((n + 3) \div 4), 2) : n \in LongOctets, p \in 1..2}
+\* call sequences under IDENTICAL parameters whose lengths go short-unaligned -> longer -> shorter again (and so on): a
+\* result must not depend on what an earlier call with the same key / COUNT / BEARER / DIRECTION (or key / IV) left behind.
+\* Bit lengths for the per-algorithm functions, octets for the wrappers, words for the raw generators.
+SeqBits == <<104, 120, 104, 5, 29, 33, 97, 127, 128, 40, 250, 255, 9, 256, 1000, 70, 1001, 3, 64, 63, 65>>
+SeqOctets == <<16, 13, 16, 1, 3, 2, 13, 15, 5, 31, 7, 64, 6, 33, 32, 4, 130, 129>>
+SeqWords == <<1, 3, 2, 8, 5, 25, 4, 26, 1, 9>>
+Gid(alg, opc, g) == alg * 1000 + opc * 100 + g
+Sequences(alg) ==
+  {GCase(FnOp, alg, KeyPat(g % 3), CntPat((g + 1) % 3), (g * 5 + alg) % 32, g % 2,
+         IF alg = 2 THEN 8 * ((SeqBits[i] + 7) \div 8) ELSE SeqBits[i], 2, Gid(alg, 1, g), i) : g \in 1..SeqGroups, i \in DOMAIN SeqBits}
+  \cup {GCase(WrOp, alg, KeyPat((g + 1) % 3), CntPat(g % 3), (g * 9 + alg) % 32, (g + 1) % 2, 8 * SeqOctets[i], 2, Gid(alg, 2, g), i)
+           : g \in 1..SeqGroups, i \in DOMAIN SeqOctets}
+SeqRaw(op, opc) ==
+  {GCase(op, 0, KeyPat(g % 3), Zero(4), 0, 0, 32 * SeqWords[i], IF g % 2 = 0 THEN 1 ELSE 3 + g, Gid(0, opc, g), i) : g \in 1..SeqGroups, i \in DOMAIN SeqWords}
+Cases == UNION {Grid(a) \cup Dense(a) \cup Walking(a) \cup Long(a) \cup Sequences(a) : a \in 1..3}
+         \cup (IF Kind = "cipher" THEN Raw("GetKeyStream") \cup Raw("Zuc") \cup LongRaw("GetKeyStream") \cup LongRaw("Zuc")
+                                        \cup SeqRaw("GetKeyStream", 3) \cup SeqRaw("Zuc", 4) ELSE {})
 Root == Case("root", 0, <<>>, <<>>, 0, 0, 0, 0)
 Init == c = Root
 Next == c = Root /\ c' \in Cases
